@@ -24,6 +24,9 @@ pub enum Node {
 	F(&'static RefLockCollection<'static, Node>),
 	T(&'static RetryingLockCollection<Node>),
 	O(&'static OwnedLockCollection<Node>),
+	/// collections built with `new_ref` (their child type is `&Node`)
+	Bref(&'static BoxedLockCollection<&'static Node>),
+	Tref(&'static RetryingLockCollection<&'static Node>),
 }
 
 pub enum NodeGuard<'g> {
@@ -75,6 +78,8 @@ unsafe impl Lockable for Node {
 			Node::F(c) => c.get_ptrs(ptrs),
 			Node::T(c) => c.get_ptrs(ptrs),
 			Node::O(c) => c.get_ptrs(ptrs),
+			Node::Bref(c) => c.get_ptrs(ptrs),
+			Node::Tref(c) => c.get_ptrs(ptrs),
 		}
 	}
 
@@ -88,6 +93,8 @@ unsafe impl Lockable for Node {
 			Node::F(c) => NodeGuard::C(Box::new(c.guard())),
 			Node::T(c) => NodeGuard::C(Box::new(c.guard())),
 			Node::O(c) => NodeGuard::C(Box::new(c.guard())),
+			Node::Bref(c) => NodeGuard::C(Box::new(c.guard())),
+			Node::Tref(c) => NodeGuard::C(Box::new(c.guard())),
 		}
 	}
 
@@ -101,6 +108,8 @@ unsafe impl Lockable for Node {
 			Node::F(c) => NodeData::C(Box::new(c.data_mut())),
 			Node::T(c) => NodeData::C(Box::new(c.data_mut())),
 			Node::O(c) => NodeData::C(Box::new(c.data_mut())),
+			Node::Bref(c) => NodeData::C(Box::new(c.data_mut())),
+			Node::Tref(c) => NodeData::C(Box::new(c.data_mut())),
 		}
 	}
 }
@@ -125,6 +134,8 @@ unsafe impl Sharable for Node {
 			Node::F(c) => NodeRGuard::C(Box::new(c.read_guard())),
 			Node::T(c) => NodeRGuard::C(Box::new(c.read_guard())),
 			Node::O(c) => NodeRGuard::C(Box::new(c.read_guard())),
+			Node::Bref(c) => NodeRGuard::C(Box::new(c.read_guard())),
+			Node::Tref(c) => NodeRGuard::C(Box::new(c.read_guard())),
 		}
 	}
 
@@ -138,6 +149,8 @@ unsafe impl Sharable for Node {
 			Node::F(c) => NodeRData::C(Box::new(c.data_ref())),
 			Node::T(c) => NodeRData::C(Box::new(c.data_ref())),
 			Node::O(c) => NodeRData::C(Box::new(c.data_ref())),
+			Node::Bref(c) => NodeRData::C(Box::new(c.data_ref())),
+			Node::Tref(c) => NodeRData::C(Box::new(c.data_ref())),
 		}
 	}
 }
@@ -157,6 +170,8 @@ unsafe impl RawLock for Node {
 			Node::F(c) => c.poison(),
 			Node::T(c) => c.poison(),
 			Node::O(c) => c.poison(),
+			Node::Bref(c) => c.poison(),
+			Node::Tref(c) => c.poison(),
 		}
 	}
 	unsafe fn raw_write(&self) {
@@ -169,6 +184,8 @@ unsafe impl RawLock for Node {
 			Node::F(c) => c.raw_write(),
 			Node::T(c) => c.raw_write(),
 			Node::O(c) => c.raw_write(),
+			Node::Bref(c) => c.raw_write(),
+			Node::Tref(c) => c.raw_write(),
 		}
 	}
 	unsafe fn raw_try_write(&self) -> bool {
@@ -181,6 +198,8 @@ unsafe impl RawLock for Node {
 			Node::F(c) => c.raw_try_write(),
 			Node::T(c) => c.raw_try_write(),
 			Node::O(c) => c.raw_try_write(),
+			Node::Bref(c) => c.raw_try_write(),
+			Node::Tref(c) => c.raw_try_write(),
 		}
 	}
 	unsafe fn raw_unlock_write(&self) {
@@ -193,6 +212,8 @@ unsafe impl RawLock for Node {
 			Node::F(c) => c.raw_unlock_write(),
 			Node::T(c) => c.raw_unlock_write(),
 			Node::O(c) => c.raw_unlock_write(),
+			Node::Bref(c) => c.raw_unlock_write(),
+			Node::Tref(c) => c.raw_unlock_write(),
 		}
 	}
 	unsafe fn raw_read(&self) {
@@ -205,6 +226,8 @@ unsafe impl RawLock for Node {
 			Node::F(c) => c.raw_read(),
 			Node::T(c) => c.raw_read(),
 			Node::O(c) => c.raw_read(),
+			Node::Bref(c) => c.raw_read(),
+			Node::Tref(c) => c.raw_read(),
 		}
 	}
 	unsafe fn raw_try_read(&self) -> bool {
@@ -217,6 +240,8 @@ unsafe impl RawLock for Node {
 			Node::F(c) => c.raw_try_read(),
 			Node::T(c) => c.raw_try_read(),
 			Node::O(c) => c.raw_try_read(),
+			Node::Bref(c) => c.raw_try_read(),
+			Node::Tref(c) => c.raw_try_read(),
 		}
 	}
 	unsafe fn raw_unlock_read(&self) {
@@ -229,6 +254,8 @@ unsafe impl RawLock for Node {
 			Node::F(c) => c.raw_unlock_read(),
 			Node::T(c) => c.raw_unlock_read(),
 			Node::O(c) => c.raw_unlock_read(),
+			Node::Bref(c) => c.raw_unlock_read(),
+			Node::Tref(c) => c.raw_unlock_read(),
 		}
 	}
 }
@@ -244,6 +271,8 @@ impl std::fmt::Debug for Node {
 			Node::F(c) => std::fmt::Debug::fmt(*c, f),
 			Node::T(c) => std::fmt::Debug::fmt(*c, f),
 			Node::O(c) => std::fmt::Debug::fmt(*c, f),
+			Node::Bref(c) => std::fmt::Debug::fmt(*c, f),
+			Node::Tref(c) => std::fmt::Debug::fmt(*c, f),
 		}
 	}
 }
